@@ -172,6 +172,8 @@ pub async fn scenario(line: &str) -> String {
     "fsmscript" => fsmscript(&p).await,
     "partialread" => partialread(&p).await,
     "hwm" => hwm(&p).await,
+    "linger" => linger(&p).await,
+    "lifecycle" => lifecycle(&p).await,
     "bigmulti" => bigmulti(&p).await,
     "faultlocal" => faultlocal(&p).await,
     _ => "bad-op".to_string(),
@@ -1749,5 +1751,444 @@ async fn hwm(p: &[&str]) -> String {
     if accepted == 0 { "ORACLE-FAIL key=hwm-vacuous nothing was accepted".into() } else { "hwm=ok".into() }
   } else {
     format!("ORACLE-FAIL key=hwm {} (accepted={} bound={})", problems.join("; "), accepted, bound)
+  }
+}
+
+
+/// `linger <opts> <sender cfg> <receiver cfg> <count> <size>`
+/// opts: `tr=tcp|ipc|inproc`, `how=close|term|drop`, `pace=<ms per message at the receiver>`.
+/// The sender (own Context) sends `count` numbered messages of `size` bytes as fast as they are accepted, then
+/// closes (close(), Context::term() or dropping the handle, then term) with the LINGER of its cfg. The receiver keeps
+/// reading. Reports: whatever arrived is a prefix of what was accepted, each message intact (`integrity`), whether all
+/// of it arrived (`all`), and how long close took relative to LINGER (`time`).
+async fn linger(p: &[&str]) -> String {
+  let opts = parse_kv(p[1]);
+  let scfg = parse_kv(p[2]);
+  let rcfg = parse_kv(p[3]);
+  let count: u32 = p[4].parse().unwrap();
+  let size: usize = p[5].parse().unwrap();
+  let transport = opts.get("tr").cloned().unwrap_or_else(|| "tcp".into());
+  let how = opts.get("how").cloned().unwrap_or_else(|| "close".into());
+  let pace = Duration::from_micros(opts.get("pace_us").and_then(|v| v.parse().ok()).unwrap_or(0));
+  let linger_ms: i64 = scfg.get("linger").and_then(|v| v.parse().ok()).unwrap_or(0);
+  // inproc needs one Context for both ends
+  let rctx = Context::new().expect("ctx");
+  let sctx = if transport == "inproc" { rctx.clone() } else { Context::new().expect("ctx") };
+  let rcv = match make_socket(&rctx, &rcfg).await {
+    Ok(s) => s,
+    Err(e) => return format!("setup-error receiver {}", err_class(&e)),
+  };
+  let snd = match make_socket(&sctx, &scfg).await {
+    Ok(s) => s,
+    Err(e) => return format!("setup-error sender {}", err_class(&e)),
+  };
+  let ep = match transport.as_str() {
+    "tcp" => "tcp://127.0.0.1:0".to_string(),
+    "ipc" => format!("ipc:///tmp/{}.sock", unique_name("rzmq-verif-linger")),
+    _ => format!("inproc://{}", unique_name("linger")),
+  };
+  if let Err(e) = rcv.bind(&ep).await {
+    return format!("setup-error bind {}", err_class(&e));
+  }
+  let target = if transport == "tcp" { last_endpoint(&rcv).await } else { ep.clone() };
+  if let Err(e) = snd.connect(&target).await {
+    return format!("setup-error connect {}", err_class(&e));
+  }
+  tokio::time::sleep(Duration::from_millis(250)).await;
+  let _ = set_i32(&rcv, o::RCVTIMEO, 1500).await;
+  // receiver task: read until nothing arrives for 1.5 s
+  let rcv2 = rcv.clone();
+  let reader = tokio::spawn(async move {
+    let mut seqs: Vec<u32> = Vec::new();
+    let mut damaged: Option<String> = None;
+    loop {
+      match rcv2.recv_multipart().await {
+        Ok(frames) => {
+          let body = frames.last().map(|m| m.data().unwrap_or(&[]).to_vec()).unwrap_or_default();
+          if body.len() != size.max(8) {
+            damaged = Some(format!("message of {} bytes, expected {}", body.len(), size.max(8)));
+            break;
+          }
+          let seq = u32::from_be_bytes([body[0], body[1], body[2], body[3]]);
+          let fill = body[4];
+          if body[8..].iter().any(|b| *b != fill) || fill != (seq % 251) as u8 {
+            damaged = Some(format!("message #{} has a damaged body", seq));
+            break;
+          }
+          seqs.push(seq);
+          if !pace.is_zero() {
+            tokio::time::sleep(pace).await;
+          }
+        }
+        Err(_) => break,
+      }
+    }
+    (seqs, damaged)
+  });
+  let mut accepted: u32 = 0;
+  for i in 0..count {
+    let mut body = vec![(i % 251) as u8; size.max(8)];
+    body[..4].copy_from_slice(&i.to_be_bytes());
+    if snd.send(Msg::from_vec(body)).await.is_err() {
+      break;
+    }
+    accepted += 1;
+  }
+  let t0 = Instant::now();
+  let closed = tokio::time::timeout(Duration::from_secs(40), async {
+    match how.as_str() {
+      "term" => {
+        if transport == "inproc" {
+          let _ = snd.close().await; // a shared Context cannot be terminated under the receiver
+        } else {
+          let _ = sctx.term().await;
+        }
+      }
+      "drop" => {
+        drop(snd);
+        if transport != "inproc" {
+          let _ = sctx.term().await;
+        }
+      }
+      _ => {
+        let _ = snd.close().await;
+        if transport != "inproc" {
+          let _ = sctx.term().await;
+        }
+      }
+    }
+  })
+  .await;
+  let took = t0.elapsed();
+  let (seqs, damaged) = reader.await.unwrap_or((Vec::new(), Some("reader task died".into())));
+  let _ = tokio::time::timeout(Duration::from_secs(5), rcv.close()).await;
+  let _ = tokio::time::timeout(Duration::from_secs(12), rctx.term()).await;
+  if transport == "ipc" {
+    let _ = std::fs::remove_file(ep.trim_start_matches("ipc://"));
+  }
+  let mut problems = Vec::new();
+  if let Some(d) = damaged {
+    problems.push(format!("key=linger-integrity {}", d));
+  }
+  if seqs.iter().enumerate().any(|(i, s)| *s != i as u32) || seqs.len() as u32 > accepted {
+    problems.push(format!("key=linger-integrity what arrived is not a prefix of what was accepted ({} arrived, first {:?})", seqs.len(), &seqs[..seqs.len().min(6)]));
+  }
+  if closed.is_err() {
+    problems.push("key=linger-time close did not return within 40 s".into());
+  } else if linger_ms >= 0 {
+    // a bounded LINGER bounds close/term (term() has a fixed internal allowance of its own)
+    let limit = Duration::from_millis(linger_ms as u64) + Duration::from_millis(2500);
+    if took > limit {
+      problems.push(format!("key=linger-time close took {} ms with LINGER {} ms", took.as_millis(), linger_ms));
+    }
+  }
+  let all = seqs.len() as u32 == accepted;
+  // LINGER -1, or one comfortably longer than the transfer needs: everything accepted must arrive
+  let must_all = linger_ms < 0 || linger_ms >= 8000;
+  if must_all && !all && problems.is_empty() {
+    problems.push(format!(
+      "key=linger-lost {} of {} accepted messages arrived although LINGER {} ms allowed the transfer (close returned after {} ms)",
+      seqs.len(),
+      accepted,
+      linger_ms,
+      took.as_millis()
+    ));
+  }
+  if problems.is_empty() {
+    format!("linger=ok all={}", if must_all { "yes" } else { "n/a" })
+  } else {
+    format!("ORACLE-FAIL {}", problems.join("; "))
+  }
+}
+
+
+/// `lifecycle <rt=ct|mt> <types,..> <op;op;..>`
+/// A scripted history of API calls on several sockets of ONE context (socket i has the i-th type), with close()/term()
+/// injected anywhere. ops: `b<i><t|p|n>` bind socket i on tcp/ipc/inproc; `c<i>-<j>` connect i to j's first endpoint;
+/// `d<i>` connect i to a dead tcp port (retries); `h<i>` a raw peer connects to i's tcp endpoint and sends half a
+/// greeting; `s<i>` one send (SNDTIMEO 50 ms); `S<i>` a background task that keeps sending (blocks at the HWM);
+/// `R<i>` a background task blocked in recv(); `o<i>` set an option; `m<i>` open a monitor; `x<i>` close() and wait;
+/// `X<i>` close() from a background task; `D<i>` drop the handle; `T` Context::term() and wait; `t` term() from a
+/// background task; `w<ms>` sleep. Afterwards (term() is called if the script did not): close/term returned in bounded
+/// time and nothing panicked; operations on every socket fail promptly; every endpoint can be bound again; no task of the
+/// context is still alive.
+async fn lifecycle(p: &[&str]) -> String {
+  let mt = p[1] == "rt=mt";
+  let types: Vec<String> = p[2].split(',').map(|x| x.to_string()).collect();
+  let script: Vec<String> = p[3].split(';').filter(|x| !x.is_empty()).map(|x| x.to_string()).collect();
+  let (tx, rx) = tokio::sync::oneshot::channel();
+  std::thread::spawn(move || {
+    let rt = if mt {
+      tokio::runtime::Builder::new_multi_thread().worker_threads(3).enable_all().build().unwrap()
+    } else {
+      tokio::runtime::Builder::new_current_thread().enable_all().build().unwrap()
+    };
+    let handle = rt.handle().clone();
+    let r = rt.block_on(async move {
+      match tokio::time::timeout(Duration::from_secs(90), lifecycle_inner(types, script, handle)).await {
+        Ok(r) => r,
+        Err(_) => "ORACLE-FAIL key=lifecycle-hang the scenario did not finish in 90 s".to_string(),
+      }
+    });
+    let _ = tx.send(r);
+    rt.shutdown_background();
+  });
+  rx.await.unwrap_or_else(|_| "PANIC".to_string())
+}
+
+async fn lifecycle_inner(types: Vec<String>, script: Vec<String>, rt: tokio::runtime::Handle) -> String {
+  let baseline_tasks = rt.metrics().num_alive_tasks();
+  let ctx = Context::new().expect("ctx");
+  let mut socks: Vec<Option<Socket>> = Vec::new();
+  for t in &types {
+    let s = ctx.socket(socket_type(t)).unwrap();
+    let _ = set_i32(&s, o::SNDTIMEO, 50).await;
+    let _ = set_i32(&s, o::SNDHWM, 5).await;
+    let _ = set_i32(&s, o::RECONNECT_IVL, 20).await;
+    if t == "SUB" {
+      let _ = s.set_option_raw(o::SUBSCRIBE, b"").await;
+    }
+    socks.push(Some(s));
+  }
+  // clones stay with the harness so that operations can be tried after close/drop
+  let probes: Vec<Socket> = socks.iter().map(|s| s.as_ref().unwrap().clone()).collect();
+  let mut endpoints: Vec<Vec<String>> = vec![Vec::new(); types.len()];
+  let mut bg: Vec<(String, tokio::task::JoinHandle<()>)> = Vec::new();
+  let mut raws: Vec<TcpStream> = Vec::new();
+  let mut monitors = Vec::new();
+  let mut problems: Vec<String> = Vec::new();
+  let mut term_called = false;
+  let mut term_bg: Option<tokio::task::JoinHandle<Result<(), ZmqError>>> = None;
+  let idx = |a: &str| -> usize { a.parse::<usize>().unwrap_or(0).min(types.len() - 1) };
+  for op in &script {
+    let (k, arg) = op.split_at(1);
+    match k {
+      "b" => {
+        let i = idx(&arg[..arg.len() - 1]);
+        let tr = &arg[arg.len() - 1..];
+        let ep = match tr {
+          "t" => "tcp://127.0.0.1:0".to_string(),
+          "p" => format!("ipc:///tmp/{}.sock", unique_name("rzmq-verif-lc")),
+          _ => format!("inproc://{}", unique_name("lc")),
+        };
+        if let Some(s) = socks[i].as_ref() {
+          if let Ok(Ok(())) = tokio::time::timeout(Duration::from_secs(5), s.bind(&ep)).await {
+            let real = if tr == "t" { last_endpoint(s).await } else { ep };
+            endpoints[i].push(real);
+          }
+        }
+      }
+      "c" => {
+        let mut it = arg.split('-');
+        let i = idx(it.next().unwrap_or("0"));
+        let j = idx(it.next().unwrap_or("0"));
+        if let (Some(s), Some(ep)) = (socks[i].as_ref(), endpoints[j].first()) {
+          let _ = tokio::time::timeout(Duration::from_secs(5), s.connect(ep)).await;
+        }
+      }
+      "d" => {
+        let i = idx(arg);
+        // a port that was just free: nobody listens there
+        let l = TcpListener::bind("127.0.0.1:0").await.unwrap();
+        let port = l.local_addr().unwrap().port();
+        drop(l);
+        if let Some(s) = socks[i].as_ref() {
+          let _ = tokio::time::timeout(Duration::from_secs(5), s.connect(&format!("tcp://127.0.0.1:{}", port))).await;
+        }
+      }
+      "h" => {
+        let i = idx(arg);
+        if let Some(ep) = endpoints[i].iter().find(|e| e.starts_with("tcp://")) {
+          if let Ok(mut st) = TcpStream::connect(ep.trim_start_matches("tcp://")).await {
+            let _ = st.write_all(&[0xff, 0, 0, 0, 0, 0, 0, 0, 1, 0x7f, 3]).await;
+            raws.push(st);
+          }
+        }
+      }
+      "s" => {
+        let i = idx(arg);
+        if let Some(s) = socks[i].as_ref() {
+          let fut = async {
+            if types[i] == "ROUTER" {
+              let mut idf = Msg::from_static(b"nobody");
+              idf.set_flags(rzmq::MsgFlags::MORE);
+              s.send_multipart(vec![idf, Msg::from_static(b"x")]).await
+            } else {
+              s.send(Msg::from_static(b"x")).await
+            }
+          };
+          if tokio::time::timeout(Duration::from_secs(5), fut).await.is_err() {
+            problems.push(format!("key=op-hangs send on socket {} did not return in 5 s (SNDTIMEO 50 ms)", i));
+          }
+        }
+      }
+      "S" | "R" => {
+        let i = idx(arg);
+        if let Some(s) = socks[i].as_ref() {
+          let s2 = s.clone();
+          let sending = k == "S";
+          bg.push((
+            format!("{}{}", k, i),
+            tokio::spawn(async move {
+              loop {
+                let r = if sending { s2.send(Msg::from_vec(vec![0u8; 2000])).await.map(|_| ()) } else { s2.recv().await.map(|_| ()) };
+                match r {
+                  Ok(()) => tokio::task::yield_now().await,
+                  Err(ZmqError::Timeout) | Err(ZmqError::ResourceLimitReached) => tokio::time::sleep(Duration::from_millis(2)).await,
+                  Err(_) => break, // closed / invalid state / unsupported: the task is over
+                }
+              }
+            }),
+          ));
+        }
+      }
+      "o" => {
+        let i = idx(arg);
+        if let Some(s) = socks[i].as_ref() {
+          let _ = tokio::time::timeout(Duration::from_secs(5), set_i32(s, o::RCVHWM, 7)).await;
+        }
+      }
+      "m" => {
+        let i = idx(arg);
+        if let Some(s) = socks[i].as_ref() {
+          if let Ok(Ok(m)) = tokio::time::timeout(Duration::from_secs(5), s.monitor_default()).await {
+            monitors.push(m);
+          }
+        }
+      }
+      "x" => {
+        let i = idx(arg);
+        if let Some(s) = socks[i].as_ref() {
+          let t0 = Instant::now();
+          match tokio::time::timeout(Duration::from_secs(15), s.close()).await {
+            Ok(_) => {}
+            Err(_) => problems.push(format!("key=close-hang close() of socket {} ({}) did not return in 15 s", i, types[i])),
+          }
+          let _ = t0;
+        }
+      }
+      "X" => {
+        let i = idx(arg);
+        if let Some(s) = socks[i].as_ref() {
+          let s2 = s.clone();
+          bg.push((format!("X{}", i), tokio::spawn(async move {
+            let _ = s2.close().await;
+          })));
+        }
+      }
+      "D" => {
+        let i = idx(arg);
+        socks[i] = None;
+      }
+      "T" => {
+        term_called = true;
+        let t0 = Instant::now();
+        if tokio::time::timeout(Duration::from_secs(25), ctx.term()).await.is_err() {
+          problems.push("key=term-hang term() did not return in 25 s".into());
+        } else if t0.elapsed() > Duration::from_secs(8) {
+          problems.push(format!("key=term-straggler term() needed {} ms: something did not stop and was waited out", t0.elapsed().as_millis()));
+        }
+      }
+      "t" => {
+        term_called = true;
+        let c2 = ctx.clone();
+        term_bg = Some(tokio::spawn(async move { c2.term().await }));
+      }
+      "w" => tokio::time::sleep(Duration::from_millis(arg.parse().unwrap_or(1))).await,
+      _ => {}
+    }
+  }
+  // the end of every history: the context is terminated
+  if !term_called || term_bg.is_none() {
+    let t0 = Instant::now();
+    if tokio::time::timeout(Duration::from_secs(25), ctx.term()).await.is_err() {
+      problems.push("key=term-hang term() did not return in 25 s".into());
+    } else if t0.elapsed() > Duration::from_secs(8) {
+      problems.push(format!("key=term-straggler term() needed {} ms: something did not stop and was waited out", t0.elapsed().as_millis()));
+    }
+  }
+  if let Some(h) = term_bg {
+    match tokio::time::timeout(Duration::from_secs(25), h).await {
+      Ok(Ok(_)) => {}
+      Ok(Err(e)) if e.is_panic() => problems.push("key=panic the task calling term() panicked".into()),
+      Ok(Err(_)) => {}
+      Err(_) => problems.push("key=term-hang background term() did not return in 25 s".into()),
+    }
+  }
+  // every operation on every socket now fails promptly
+  for (i, s) in probes.iter().enumerate() {
+    let t0 = Instant::now();
+    let r = tokio::time::timeout(Duration::from_secs(3), async {
+      let a = s.send(Msg::from_static(b"late")).await.is_err();
+      let b = s.recv().await.is_err();
+      let c = s.bind("inproc://never").await.is_err();
+      (a, b, c)
+    })
+    .await;
+    match r {
+      Err(_) => problems.push(format!("key=op-after-close-hangs an operation on socket {} ({}) after term() did not return in 3 s", i, types[i])),
+      Ok((a, b, _c)) => {
+        if !(a && b) {
+          problems.push(format!("key=op-after-close-succeeds send/recv on socket {} ({}) after term(): send err={} recv err={}", i, types[i], a, b));
+        }
+      }
+    }
+    let _ = t0;
+  }
+  // background tasks blocked in send/recv/close have all returned
+  for (name, h) in bg {
+    match tokio::time::timeout(Duration::from_secs(5), h).await {
+      Ok(Ok(())) => {}
+      Ok(Err(e)) if e.is_panic() => problems.push(format!("key=panic background task {} panicked", name)),
+      Ok(Err(_)) => {}
+      Err(_) => problems.push(format!("key=op-hangs background task {} is still blocked 5 s after term()", name)),
+    }
+  }
+  drop(raws);
+  drop(monitors);
+  drop(probes);
+  drop(socks);
+  // every endpoint is free again
+  let ctx2 = Context::new().expect("ctx2");
+  for (i, eps) in endpoints.iter().enumerate() {
+    for ep in eps {
+      let s = ctx2.socket(socket_type(&types[i])).unwrap();
+      let mut ok = false;
+      let t0 = Instant::now();
+      while t0.elapsed() < Duration::from_millis(2500) {
+        match s.bind(ep).await {
+          Ok(()) => {
+            ok = true;
+            break;
+          }
+          Err(_) => tokio::time::sleep(Duration::from_millis(100)).await,
+        }
+      }
+      if !ok {
+        problems.push(format!("key=rebind-failed {} cannot be bound again 2.5 s after term()", if ep.starts_with("tcp") { "a tcp port" } else if ep.starts_with("ipc") { "an ipc path" } else { "an inproc name" }));
+      }
+      let _ = tokio::time::timeout(Duration::from_secs(5), s.close()).await;
+      if let Some(path) = ep.strip_prefix("ipc://") {
+        let _ = std::fs::remove_file(path);
+      }
+    }
+  }
+  let _ = tokio::time::timeout(Duration::from_secs(15), ctx2.term()).await;
+  drop(ctx2);
+  drop(ctx);
+  // nothing of either context is still running
+  let t0 = Instant::now();
+  let mut alive = rt.metrics().num_alive_tasks();
+  while alive > baseline_tasks && t0.elapsed() < Duration::from_secs(3) {
+    tokio::time::sleep(Duration::from_millis(50)).await;
+    alive = rt.metrics().num_alive_tasks();
+  }
+  if alive > baseline_tasks {
+    problems.push(format!("key=tasks-left {} task(s) still alive 3 s after term()", alive - baseline_tasks));
+  }
+  if problems.is_empty() {
+    "lifecycle=ok".into()
+  } else {
+    format!("ORACLE-FAIL {}", problems.join("; "))
   }
 }
